@@ -46,10 +46,9 @@ func genRPNElementByOp(logicalOp influxql.Token, value *FieldRef, res *RPNElemen
 		res.rg = createLeftBounded(value, true, false)
 	case influxql.IN:
 		res.op = rpn.InSet
-	case influxql.MATCHPHRASE, influxql.IPINRANGE:
-		res.op = rpn.InRange
-		res.rg = NewRange(value, value, true, true)
 	default:
+		// MATCHPHRASE, IPINRANGE, MATCH, LIKE ... are not comparisons with the literal:
+		// the primary index cannot decide them.
 		res.op = rpn.UNKNOWN
 		return false
 	}
